@@ -276,6 +276,36 @@ def check_one(src):
         dup_b, dup_o = duplicate_decls(B), duplicate_decls(o[1])
         if dup_o - dup_b:
             sig("strsize:duplicate-decl", f"with default_str_storage=40 these identifiers are declared twice: {sorted(dup_o - dup_b)}")
+    # 5b. each option does the same thing whatever the other options are: the three text rules again from bases in which
+    # one OTHER option is already changed (size 40 / pre-initialisation off / filtering on)
+    b40, bz, bl = conv(default_str_storage=40), conv(initialize_vars=False), conv(filter_unused_linenum=True)
+    o = conv(default_str_storage=40, initialize_vars=False)
+    out["pairs"] += 1
+    if o[0] == "ok" and b40[0] == "ok" and bz[0] == "ok":
+        if no_blank(without_init(b40[1])) != no_blank(o[1]):
+            a, b = no_blank(without_init(b40[1])).split("\n"), no_blank(o[1]).split("\n")
+            d = [(x, y) for x, y in itertools.zip_longest(a, b) if x != y][:1]
+            sig("init:text:with-string-size-40", f"with default_str_storage=40, turning pre-initialisation off changes more than prologue assignments / fill loops: {d}")
+        if norm_sizes(o[1]) != norm_sizes(bz[1]):
+            sig("strsize:text:without-pre-initialisation", "with pre-initialisation off, the string size changes more than STRING[n] sizes")
+        if len(re.findall(r"STRING\[40\]", o[1])) != len(re.findall(r"STRING\[40\]", b40[1])):
+            sig("strsize:declarations:without-pre-initialisation", f"{len(re.findall(r'STRING.40.', b40[1]))} STRING[40] declarations with pre-initialisation, {len(re.findall(r'STRING.40.', o[1]))} without")
+    elif o[0] != "ok":
+        sig("init+strsize:status", str(o))
+    o = conv(filter_unused_linenum=True, default_str_storage=40)
+    out["pairs"] += 1
+    if o[0] == "ok" and b40[0] == "ok" and bl[0] == "ok":
+        if strip_labels(o[1]) != strip_labels(b40[1]):
+            sig("filter:text:with-string-size-40", "with default_str_storage=40, filtering changes statements beyond labels")
+        if norm_sizes(o[1]) != norm_sizes(bl[1]):
+            sig("strsize:text:with-filtering", "with filtering on, the string size changes more than STRING[n] sizes")
+    o = conv(filter_unused_linenum=True, initialize_vars=False)
+    out["pairs"] += 1
+    if o[0] == "ok" and bz[0] == "ok" and bl[0] == "ok":
+        if strip_labels(o[1]) != strip_labels(bz[1]):
+            sig("filter:text:without-pre-initialisation", "with pre-initialisation off, filtering changes statements beyond labels")
+        if no_blank(without_init(bl[1])) != no_blank(o[1]):
+            sig("init:text:with-filtering", "with filtering on, turning pre-initialisation off changes more than prologue assignments / fill loops")
     # 6. options that must not interact: suffix and prefix
     o = conv(add_suffix=False)
     out["pairs"] += 1
@@ -368,6 +398,84 @@ def cli(ctx):
         shutil.rmtree(tmp, ignore_errors=True)
 
 
+def cli_size_symbolic(ctx):
+    """the -s value reaches convert_file unchanged, for EVERY size: start() is run with the parsed value replaced by a
+    z3-backed integer (argparse's own str -> int step is not modelled) and a recorder in place of convert_file; z3 decides
+    recorded value = given value over 1..32767; a model is replayed through the real argv"""
+    import argparse
+
+    import z3
+
+    from coco import decb_to_b09
+
+    from vf import symproxy
+
+    n = z3.Int("size")
+    tmp = tempfile.mkdtemp(prefix="c11sz")
+    try:
+        inp = os.path.join(tmp, "game.bas")
+        with open(inp, "w") as f:
+            f.write("10 PRINT 1\n")
+        got = []
+
+        def recorder(i, o, **kw):
+            got.append(kw.get("default_str_storage"))
+
+        real_parse = argparse.ArgumentParser.parse_args
+
+        def parse(self, argv=None, namespace=None):
+            ns = real_parse(self, argv, namespace)
+            if hasattr(ns, "default_string_storage"):
+                ns.default_string_storage = symproxy.SInt(n)
+            return ns
+
+        def fn():
+            got.clear()
+            decb_to_b09.start([inp, os.path.join(tmp, "o.b09"), "-s", "77"])
+            return got[0] if got else None
+
+        old = decb_to_b09.convert_file
+        decb_to_b09.convert_file = recorder
+        argparse.ArgumentParser.parse_args = parse
+        try:
+            paths = symproxy.explore(fn, premises=[n >= 1, n <= 32767])
+        finally:
+            decb_to_b09.convert_file = old
+            argparse.ArgumentParser.parse_args = real_parse
+        ctx.stats["states"] += len(paths)
+        for pc, (stt, val), holes in paths:
+            ctx.stats["obligations"] += 1
+            if stt != "ok":
+                ctx.harness_gap(f"start() with a symbolic -s value: {stt} {str(val)[:80]}")
+                continue
+            term = val.t if isinstance(val, symproxy.SInt) else (z3.IntVal(val) if isinstance(val, int) else None)
+            if term is None:
+                ctx.harness_gap(f"start() handed convert_file a {type(val).__name__} for default_str_storage")
+                continue
+            v, m = smt.check(list(pc) + [term != n], 10000, True)
+            ctx.stats[v] += 1
+            ctx.sample({"obligation": "-s N reaches convert_file as N, for every N in 1..32767", "path": [str(c) for c in pc][2:], "verdict": v})
+            if v == "sat":
+                size = m.eval(n, True).as_long()
+                rec = []
+                decb_to_b09.convert_file = lambda i, o, **kw: rec.append(kw.get("default_str_storage"))
+                try:
+                    decb_to_b09.start([inp, os.path.join(tmp, "o.b09"), "-s", str(size)])
+                finally:
+                    decb_to_b09.convert_file = old
+                ctx.stats["traces_validated_against_impl"] += 1
+                if rec and rec[0] != size:
+                    ctx.violation("cli-flag:-s:value-changed", f"-s {size} reaches convert_file as default_str_storage={rec[0]}", {"argv": ["-s", str(size)]})
+                else:
+                    raise HarnessError(f"-s model {size} did not replay: {rec}")
+            elif v == "unknown":
+                ctx.note_inconclusive("-s value")
+    finally:
+        import shutil
+
+        shutil.rmtree(tmp, ignore_errors=True)
+
+
 def run(tier):
     ctx = Ctx("C11", tier, "translation_validation", technique="pairs of real convert() outputs differing in one option: text equality modulo the documented difference + BASIC09<->BASIC09 equivalence decided by z3 over the symbolic machine; CLI flag mapping enumerated with a recording stub")
     smt.reset_stats()
@@ -387,6 +495,7 @@ def run(tier):
     for r in results[:: max(1, len(results) // 6)]:
         ctx.sample({"source": r["src"], "status": r.get("status"), "pairs": r["pairs"]})
     cli(ctx)
+    cli_size_symbolic(ctx)
     file_path(ctx)
     history(ctx)
     ctx.add_solver_stats(smt.STATS.export())
